@@ -49,8 +49,9 @@ def __text(value):
 
 
 def __convert_tracepoint(tracepoint: TrPoCo):
+    # args registered in code can hold values that are not text (e.g. {'fire_count': 5}), the message holds text
     return TracePointConfig(ID=tracepoint.id, path=tracepoint.path, line_number=tracepoint.line_no,
-                            args=tracepoint.args,
+                            args={str(k): str(v) for k, v in tracepoint.args.items()},
                             watches=tracepoint.watches)
 
 
